@@ -151,7 +151,7 @@ let run_parse (f : string list) : (string * string) option =
   | _ -> None
 
 let run (f : string list) : string * string =
-  match f with "proto" :: _ -> Driver_proto.run f | _ ->
+  match f with "proto" :: _ -> Driver_proto.run f | "app" :: _ -> Driver_proto.run_app f | _ ->
   match run_parse f with Some r -> r | None ->
   match run_ascii f with Some r -> r | None ->
   match run_frame f with Some r -> r | None ->
